@@ -9,6 +9,16 @@
    a hit is reported as ` !<tag>` on the output line, minimised here (delta debugging on the op
    script) and turned into a violation with the script as replay.
 
+4. exhaustive small histories (every duplicate / sortedness class by construction, not by luck of the rng):
+   * RelationsMapStash: ALL add() sequences up to length 4 (quick) / 5 (thorough; 6 over three ids) over an id alphabet
+     that mixes 32-bit ids, 0xffffffff and ids above 2^32, each on fresh objects through all builders (`R hist`):
+     size()/empty() of the stash, of every index and of RelationsMapIndexes, for_each(k) as a LIST for every id of the
+     alphabet, absent ids and the 2^32-twins of recorded ids.  Three judges per history: the harness's std::set<pair>
+     monitor, an independent set-of-pairs oracle here (`rel_expected`), and the Lean model (line equality).
+   * IdSetSmall: all set() sequences x all merge partners (`S hist`); IdSetDense<32/64, 4/8>: all set/unset/cas/copy
+     sequences over ids on both sides of a byte and a chunk boundary, with a Python set oracle (`dense_oracle`).
+   Histogram `relhist:<dup|nodup>:<order class>:<width class>:<builder>:<outcome>` in the evidence.
+
 Findings F2 and F3 are fixed in /repo (7c7de5b, 9f963df); corpus/C15/f2-*.ops and f3-*.ops stay as
 regression probes: if the old behaviour returns the monitors raise VIOLATION with the stable keys
 idset32-iterate-top-chunk / relmap32-probe-ge-2^32.
@@ -343,6 +353,600 @@ def gen_stash_long(rng, ibs, cycles, keep_live=None):
     return ops, sim.auto_gc
 
 
+
+# ---------------------------------------------------------------------------------------------
+# exhaustive small histories
+
+REL_ALPHABET = [1, 2, MAX32, 2 ** 33 + 1]          # two small ids, the largest 32-bit id, one id above 2^32
+REL_SMALL_POOL = [0, 1, 2, 5, 1000, MAX32 - 1]
+REL_WIDE_POOL = [2 ** 32, 2 ** 32 + 1, 2 ** 33 + 1, 2 ** 63, 2 ** 64 - 1]
+SMALL_ALPHABET = [0, 5, MAX32, 2 ** 32, 2 ** 64 - 1]
+
+
+def rel_probes(alpha):
+    """every id of the alphabet, absent ids, and ids that agree with a recorded id in the low 32 bits"""
+    ps = list(alpha)
+    for a in alpha:
+        for x in ((a + 2 ** 32) if a <= MAX32 else (a % 2 ** 32), a + 1 if a < 2 ** 64 - 1 else 0):
+            if x not in ps:
+                ps.append(x)
+    for x in (0, 3, 2 ** 64 - 1):
+        if x not in ps:
+            ps.append(x)
+    return ps
+
+
+def _cnt_list(vs):
+    return '%d:%s' % (len(vs), ','.join(map(str, vs))) if vs else '0'
+
+
+def rel_expected(h, probes, cache):
+    """the property itself, independent of harness and model: after the adds `h` (list of (member, parent)) every
+    index holds exactly the SET of recorded pairs; for_each(k) delivers the partners of k ascending, each once.
+    Returns the sections of the `R hist` output line."""
+    n32 = sum(1 for m, r in h if m <= MAX32 and r <= MAX32)
+    key = frozenset(h)
+    got = cache.get(key)
+    if got is None:
+        n = len(key)
+        head = '%d %d' % (n, 0 if n else 1)
+        m2p = ' '.join([head] + [_cnt_list(sorted(r for m, r in key if m == k)) for k in probes])
+        p2m = ' '.join([head] + [_cnt_list(sorted(m for m, r in key if r == k)) for k in probes])
+        got = cache[key] = ['M ' + m2p, 'P ' + p2m, 'BM ' + m2p, 'BP ' + p2m, 'B ' + head]
+    return ['S %d %d %d %d' % (len(h), n32, len(h) - n32, 0 if h else 1)] + got
+
+
+def order_class(seq):
+    if len(seq) < 2:
+        return 'short'
+    if all(x == seq[0] for x in seq):
+        return 'all-equal'
+    up = all(seq[i] <= seq[i + 1] for i in range(len(seq) - 1))
+    down = all(seq[i] >= seq[i + 1] for i in range(len(seq) - 1))
+    strict = all(seq[i] != seq[i + 1] for i in range(len(seq) - 1))
+    if up:
+        return 'ascending' if strict else 'ascending+equal-neighbour'
+    if down:
+        return 'descending' if strict else 'descending+equal-neighbour'
+    return 'unordered'
+
+
+def width_class(h):
+    n32 = sum(1 for m, r in h if m <= MAX32 and r <= MAX32)
+    return 'empty' if not h else 'all32' if n32 == len(h) else 'all64' if n32 == 0 else 'mixed32+64'
+
+
+def rel_histories(alpha, maxlen):
+    import itertools
+    pairs = [(a, b) for a in alpha for b in alpha]
+    for n in range(maxlen + 1):
+        for h in itertools.product(pairs, repeat=n):
+            yield h
+
+
+def rel_hist_line(h, ptxt):
+    return 'R hist %d %s%s' % (len(h), ''.join('%d %d ' % p for p in h), ptxt)
+
+
+def rel_script(h, probes):
+    """the same history in single-call ops (for the replay file: readable, and usable with --replay)"""
+    ops = ['R reset'] + ['R add %d %d' % p for p in h] + ['R size']
+    for b in ('m2p', 'p2m', 'both'):
+        ops.append('R build ' + b)
+        for which in ('m2p', 'p2m'):
+            if b in ('both', which):
+                ops += ['R look %s %d' % (which, k) for k in probes]
+    return ops
+
+
+def small_expected(ids, others, probes):
+    a = set(ids)
+    u = a | set(others)
+    bits = lambda st: ''.join('1' if k in st else '0' for k in probes)
+    lst = lambda st: ' '.join(map(str, [len(st)] + sorted(st)))
+    return [None, 'get ' + bits(a), 'sorted ' + lst(a), 'getb ' + bits(a), 'merged ' + lst(u), 'getb ' + bits(u)]
+
+
+def dense_oracle(w, ops):
+    """expected outputs of a `D` script from a Python set (size() in the arithmetic of T)"""
+    st = set()
+    out = []
+    for o in ops:
+        f = o.split()
+        a = f[3]
+        if a == 'set':
+            st.add(int(f[4]))
+            out.append('ok')
+        elif a == 'unset':
+            st.discard(int(f[4]))
+            out.append('ok')
+        elif a == 'cas':
+            x = int(f[4])
+            out.append('0' if x in st else '1')
+            st.add(x)
+        elif a == 'get':
+            out.append('1' if int(f[4]) in st else '0')
+        elif a == 'size':
+            out.append(str(len(st) % (1 << w)))
+        elif a == 'empty':
+            out.append('0' if st else '1')
+        elif a == 'clear':
+            st.clear()
+            out.append('ok')
+        elif a == 'copy':
+            out.append('ok')
+        elif a == 'iter':
+            out.append(' '.join(map(str, [len(st)] + sorted(st))))
+        else:
+            out.append('?')
+    return out
+
+
+def gen_dense_exhaustive(w, cb, maxlen):
+    import itertools
+    C = chunk_ids(cb)
+    ids = [7, 8, C - 1, C]                 # both sides of a byte boundary and of a chunk boundary
+    acts = [(a, i) for a in ('set', 'unset', 'cas') for i in ids] + [('copy', None)]
+    p = 'D %d %d ' % (w, cb)
+    tail = [p + 'size', p + 'empty', p + 'iter'] + [p + 'get %d' % i for i in ids]
+    ops = []
+    for n in range(maxlen + 1):
+        for h in itertools.product(acts, repeat=n):
+            ops.append(p + 'clear')
+            for a, i in h:
+                ops.append(p + a if i is None else p + '%s %d' % (a, i))
+            ops += tail
+    return ops
+
+
+def run_pair(impl_bin, model_bin, ops, timeout=3000):
+    """the same op lines through the harness and the model driver, concurrently"""
+    from concurrent.futures import ThreadPoolExecutor
+
+    def job(binary):
+        try:
+            return run_bin(binary, ops, timeout=timeout)
+        except subprocess.TimeoutExpired:
+            return -9, [], 'timeout'
+    with ThreadPoolExecutor(max_workers=2) as ex:
+        fi = ex.submit(job, impl_bin)
+        fm = ex.submit(job, model_bin) if model_bin else None
+        ri = fi.result()
+        rm = fm.result() if fm else (0, None, '')
+    return ri, rm
+
+
+def exhaustive_stage(ctx, bins, model_bin, quick):
+    """all small histories; returns the number of op lines executed"""
+    lines_total = 0
+    seed_rng = vlib.SplitMix64((ctx.seed * 0x9E3779B97F4A7C15 + 0xC15) & 0xFFFFFFFFFFFFFFFF)
+    hb = bins['c15']
+    state = {'viol': 0, 'rel': 0, 'small': 0, 'dense': 0}
+
+    def crash_violation(stream, ops, ri):
+        rc, out, se = ri
+        cut = ops[len(out):len(out) + 1] or ops[-1:]
+        first = [l for l in se.split('\n') if 'ERROR' in l or 'runtime error' in l or 'Assertion' in l]
+        ctx.violation('crash:' + cut[0][:150], 'the real code crashes / hangs (rc=%s; %s) in the exhaustive %s stream on: %s'
+                      % (rc, (first or [se.strip()[:200]])[0][:300], stream, cut[0][:600]),
+                      {'kind': 'counterexample', 'ops': cut, 'binary': 'c15', 'stderr': se[-3000:],
+                       'replay': 'python3 tools/check.py C15 --replay <this file>'})
+
+    # ---- relation maps -------------------------------------------------------------------------------
+    plans = [('fixed', REL_ALPHABET, 4 if quick else 5)]
+    # a second alphabet drawn from the seed: two small ids, 0xffffffff or its neighbour, one or two wide ids
+    a2 = [seed_rng.choice(REL_SMALL_POOL)]
+    a2.append(seed_rng.choice([x for x in REL_SMALL_POOL if x not in a2]))
+    a2.append(seed_rng.choice(REL_WIDE_POOL))
+    if quick:
+        plans.append(('seeded', a2, 4))
+    else:
+        a2.append(seed_rng.choice([x for x in REL_WIDE_POOL if x not in a2] + [MAX32]))
+        plans.append(('seeded', a2, 4))
+        plans.append(('three-ids', [1, MAX32, 2 ** 33 + 1], 6))
+    for pname, alpha, maxlen in plans:
+        probes = rel_probes(alpha)
+        ptxt = ' '.join(map(str, probes))
+        cache = {}
+        ctx.count('exhaustive:relmap-%s-alphabet-%s-maxlen-%d' % (pname, '/'.join(map(str, alpha)), maxlen), 0)
+        gen = rel_histories(alpha, maxlen)
+        done = False
+        while not done:
+            hs = []
+            for h in gen:
+                hs.append(h)
+                if len(hs) >= 150000:
+                    break
+            else:
+                done = True
+            if not hs:
+                break
+            ops = [rel_hist_line(h, ptxt) for h in hs]
+            ri, rm = run_pair(hb, model_bin, ops)
+            lines_total += len(ops)
+            ctx.count('exhaustive:relmap-%s-alphabet-%s-maxlen-%d' % (pname, '/'.join(map(str, alpha)), maxlen), len(ops))
+            if ri[0] != 0 or len(ri[1]) != len(ops):
+                crash_violation('relation-map', ops, ri)
+                return lines_total
+            impl, model = ri[1], rm[1]
+            mdis = []
+            for i, h in enumerate(hs):
+                ctx.note_case(ops[i], nontrivial=len(h) > 0)
+                res, tags = split_mon(impl[i])
+                want = rel_expected(h, probes, cache)
+                secs = res.split(' | ')
+                dup = 'dup' if len(set(h)) < len(h) else 'nodup'
+                wc = width_class(h)
+                fwd = order_class(h)
+                rev = order_class([(r, m) for m, r in h])
+                bad = []
+                for j, b in ((1, 'm2p'), (2, 'p2m'), (3, 'both-m2p'), (4, 'both-p2m')):
+                    ok = j < len(secs) and secs[j] == want[j]
+                    ctx.count('relhist:%s:%s:%s:%s:%s' % (dup, fwd if j in (1, 3) else rev, wc, b, 'ok' if ok else 'WRONG'))
+                    if not ok:
+                        bad.append(b)
+                if len(secs) != len(want) or secs[0] != want[0] or secs[5:] != want[5:]:
+                    bad.append('sizes')
+                if (bad or tags) and state['rel'] < 1:       # histories come shortest first: the first hit is a minimal one
+                    state['rel'] += 1
+                    state['viol'] += 1
+                    exp = ' | '.join(want)
+                    ctx.violation('relmap-history:' + ' '.join('%d,%d' % p for p in h),
+                                  'RelationsMapStash history [%s]: the indexes do not hold exactly the recorded pairs (wrong: %s; harness '
+                                  'monitors: %s).  Output (S = stash size n32 n64 empty; M/P = build_member_to_parent/parent_to_member_index, '
+                                  'BM/BP = build_indexes(): size empty, then for_each(k) as count:values for k in %s):  got `%s`  expected `%s`'
+                                  % (' '.join('add(%d,%d)' % p for p in h), ','.join(bad) or '-', ','.join(tags) or '-', ptxt, res, exp),
+                                  {'kind': 'counterexample', 'ops': [ops[i]], 'as_script': rel_script(h, probes), 'binary': 'c15',
+                                   'expected': exp, 'got': impl[i], 'replay': 'python3 tools/check.py C15 --replay <this file>'})
+                if model is not None and (i >= len(model) or model[i] != res):
+                    mdis.append((i, bool(bad or tags)))
+            if model is not None:
+                ctx.diff_streams('c15-relmap-exhaustive', ops, [split_mon(l)[0] for l in impl], model)
+                for i, flagged in mdis:
+                    if not flagged:
+                        ctx.violation('correspondence:relmap-exhaustive:' + ops[i][:100],
+                                      'model and implementation disagree on `%s`: impl=`%s` model=`%s` (set-of-pairs oracle and monitors agree with the impl)'
+                                      % (ops[i][:200], impl[i][:300], (model[i] if i < len(model) else '<missing>')[:300]),
+                                      {'kind': 'broken-correspondence', 'ops': [ops[i]], 'binary': 'c15'}, found_input=False)
+                        break
+    ctx.sample(rel_hist_line(((1, 2 ** 33 + 1), (1, 2 ** 33 + 1), (2, 1)), ' '.join(map(str, rel_probes(REL_ALPHABET)))))
+
+    # ---- IdSetSmall --------------------------------------------------------------------------------------
+    import itertools
+    probes = SMALL_ALPHABET + [1]
+    ptxt = ' '.join(map(str, probes))
+    nl, ol = (4, 2) if quick else (5, 3)
+    hs = [(ids, oth) for n in range(nl + 1) for ids in itertools.product(SMALL_ALPHABET, repeat=n)
+          for m in range(ol + 1) for oth in itertools.product(SMALL_ALPHABET, repeat=m)]
+    for c0 in range(0, len(hs), 200000):
+        part = hs[c0:c0 + 200000]
+        ops = ['S hist %d %s%d %s%s' % (len(i), ''.join('%d ' % x for x in i), len(o), ''.join('%d ' % x for x in o), ptxt) for i, o in part]
+        ri, rm = run_pair(hb, model_bin, ops)
+        lines_total += len(ops)
+        ctx.count('exhaustive:idsetsmall-histories', len(ops))
+        if ri[0] != 0 or len(ri[1]) != len(ops):
+            crash_violation('IdSetSmall', ops, ri)
+            return lines_total
+        impl, model = ri[1], rm[1]
+        for i, (ids, oth) in enumerate(part):
+            ctx.note_case(ops[i], nontrivial=len(ids) + len(oth) > 0)
+            res, tags = split_mon(impl[i])
+            secs = res.split(' | ')
+            want = small_expected(ids, oth, probes)
+            raw = secs[0].split()
+            bad = len(secs) != 6 or secs[1:] != want[1:] or raw[0] != 'raw' or set(map(int, raw[2:])) != set(ids)
+            ctx.count('smallhist:%s:%s:%s' % ('dup' if len(set(ids)) < len(ids) else 'nodup', order_class(ids),
+                                              'WRONG' if bad or tags else 'ok'))
+            if (bad or tags) and state['small'] < 1:
+                state['small'] += 1
+                state['viol'] += 1
+                ctx.violation('idsetsmall-history:' + ','.join(map(str, ids)) + '/' + ','.join(map(str, oth)),
+                              'IdSetSmall history set(%s); sort_unique(); merge_sorted({%s}): content / membership differ from the set (monitors: %s): '
+                              'got `%s` expected `%s`' % (','.join(map(str, ids)), ','.join(map(str, oth)), ','.join(tags) or '-', res,
+                                                          ' | '.join(['raw <any order>'] + want[1:])),
+                              {'kind': 'counterexample', 'ops': [ops[i]], 'binary': 'c15', 'replay': 'python3 tools/check.py C15 --replay <this file>'})
+        if model is not None:
+            dis = ctx.diff_streams('c15-idsetsmall-exhaustive', ops, [split_mon(l)[0] for l in impl], model)
+            if dis and not state['viol']:
+                i, op, a, b = dis[0]
+                ctx.violation('correspondence:idsetsmall-exhaustive:' + op[:100], 'model and implementation disagree on `%s`: impl=`%s` model=`%s`'
+                              % (op[:200], a[:300], b[:300]), {'kind': 'broken-correspondence', 'ops': [op], 'binary': 'c15'}, found_input=False)
+
+    # ---- IdSetDense ----------------------------------------------------------------------------------------
+    for (w, cb) in ((32, 4), (64, 4), (32, 8), (64, 8)):
+        ops = gen_dense_exhaustive(w, cb, 3 if quick else 4)
+        ri, rm = run_pair(hb, model_bin, ops)
+        lines_total += len(ops)
+        ctx.count('exhaustive:idsetdense-%d-%d-ops' % (w, cb), len(ops))
+        if ri[0] != 0 or len(ri[1]) != len(ops):
+            crash_violation('IdSetDense', ops, ri)
+            return lines_total
+        impl, model = ri[1], rm[1]
+        want = dense_oracle(w, ops)
+        start = 0
+        for i, o in enumerate(ops):
+            if o.endswith(' clear'):
+                start = i
+                ctx.note_case('\n'.join(ops[i:i + 12]), nontrivial=False)
+            res, tags = split_mon(impl[i])
+            if (res != want[i] or tags) and state['dense'] < 1:
+                state['dense'] += 1
+                state['viol'] += 1
+                cut = ops[start:i + 1]
+                ctx.violation('idsetdense-history:' + ' / '.join(cut)[:160],
+                              'IdSetDense<uint%d_t, %d> differs from the set after the history %s: got `%s` expected `%s` (monitors: %s)'
+                              % (w, cb, ' ; '.join(cut), res, want[i], ','.join(tags) or '-'),
+                              {'kind': 'counterexample', 'ops': cut, 'binary': 'c15', 'replay': 'python3 tools/check.py C15 --replay <this file>'})
+        if model is not None:
+            dis = ctx.diff_streams('c15-idsetdense-exhaustive', ops, [split_mon(l)[0] for l in impl], model)
+            if dis and not state['viol']:
+                i, op, a, b = dis[0]
+                ctx.violation('correspondence:idsetdense-exhaustive:' + op[:100], 'model and implementation disagree at op %d `%s`: impl=`%s` model=`%s`'
+                              % (i, op[:200], a[:300], b[:300]), {'kind': 'broken-correspondence', 'ops': ops[max(0, i - 12):i + 1], 'binary': 'c15'},
+                              found_input=False)
+    return lines_total
+
+
+
+# ---------------------------------------------------------------------------------------------
+# shape tie: the statement sequences of the container methods whose bodies are calls of std algorithms on a
+# std::vector (outside the subset of tools/cxx2lean.py) are read off clang's typed AST on every run, printed in a
+# normalised form (no comments / layout / implicit nodes) into lean/Osmium/Generated/C15Shape.lean, and the
+# `src_shape_*` theorems of Props/C15.lean compare them with the statement sequences the model functions transcribe.
+# An added early return, flag member, branch or call changes the text and breaks the theorem of that function.
+
+SHAPE_TU = '''#include <osmium/index/relations_map.hpp>
+#include <osmium/index/id_set.hpp>
+template class osmium::index::IdSetSmall<unsigned long>;
+namespace c15_inst {
+inline void f(osmium::index::RelationsMapStash& s) {
+    s.add(1, 2);
+    auto a = s.build_indexes();
+    auto b = s.build_member_to_parent_index();
+    auto c = s.build_parent_to_member_index();
+    a.member_to_parent().for_each(0, [](osmium::unsigned_object_id_type) {});
+}
+}
+'''
+SHAPE_CLASSES = {
+    'flat_map32': ('flat_map', ['unsigned long', 'unsigned int', 'unsigned long', 'unsigned int']),
+    'flat_map64': ('flat_map', ['unsigned long', 'unsigned long', 'unsigned long', 'unsigned long']),
+    'stash': ('RelationsMapStash', None),
+    'small': ('IdSetSmall', ['unsigned long']),
+}
+# (class label, method) -> Lean name; everything listed is always emitted (a method that is gone: ["<missing>"])
+SHAPE_METHODS = [
+    ('flat_map32', 'set'), ('flat_map32', 'sort_unique'), ('flat_map32', 'flip_in_place'), ('flat_map32', 'flip_copy'),
+    ('flat_map32', 'clear'), ('flat_map32', 'get'), ('flat_map32', 'empty'), ('flat_map32', 'size'),
+    ('flat_map64', 'set'), ('flat_map64', 'sort_unique'), ('flat_map64', 'flip_in_place'), ('flat_map64', 'flip_copy'),
+    ('flat_map64', 'get'), ('flat_map64', 'empty'), ('flat_map64', 'size'),
+    ('stash', 'add'), ('stash', 'append32to64'), ('stash', 'build_member_to_parent_index'),
+    ('stash', 'build_parent_to_member_index'), ('stash', 'build_indexes'), ('stash', 'empty'), ('stash', 'size'), ('stash', 'sizes'),
+    ('small', 'set'), ('small', 'get'), ('small', 'get_binary_search'), ('small', 'sort_unique'), ('small', 'merge_sorted'),
+    ('small', 'clear'), ('small', 'size'), ('small', 'empty'),
+]
+
+
+def _sk_load(text):
+    dec = json.JSONDecoder()
+    i, objs = 0, []
+    while i < len(text):
+        while i < len(text) and text[i] in ' \n\r\t':
+            i += 1
+        if i >= len(text):
+            break
+        o, i = dec.raw_decode(text, i)
+        objs.append(o)
+    return objs
+
+
+SK_TRANSPARENT = {'ImplicitCastExpr', 'ParenExpr', 'MaterializeTemporaryExpr', 'CXXBindTemporaryExpr', 'ExprWithCleanups',
+               'ConstantExpr', 'FullExpr'}
+
+def _kids(n):
+    return [c for c in (n.get('inner') or []) if c and c.get('kind')]
+
+def short_type(n):
+    t = (n.get('type') or {}).get('qualType', '?')
+    t = t.replace('const ', '').strip()
+    out, depth = [], 0
+    for ch in t:                     # drop template arguments
+        if ch == '<':
+            depth += 1
+        elif ch == '>':
+            depth -= 1
+        elif depth == 0:
+            out.append(ch)
+    return ''.join(out).split('::')[-1].strip()
+
+def sk_ex(n):
+    k = n.get('kind')
+    c = _kids(n)
+    if k in SK_TRANSPARENT:
+        return sk_ex(c[-1]) if c else '<%s>' % k
+    if k == 'CXXThisExpr':
+        return 'this'
+    if k == 'MemberExpr':
+        base = sk_ex(c[0]) if c else '?'
+        return n.get('name', '?') if base == 'this' else base + '.' + n.get('name', '?')
+    if k == 'DeclRefExpr':
+        return (n.get('referencedDecl') or {}).get('name', '?')
+    if k in ('CallExpr', 'CXXMemberCallExpr'):
+        return sk_ex(c[0]) + '(' + ', '.join(sk_ex(a) for a in c[1:]) + ')'
+    if k == 'CXXOperatorCallExpr':
+        op = sk_ex(c[0])
+        return op + '(' + ', '.join(sk_ex(a) for a in c[1:]) + ')'
+    if k == 'BinaryOperator' or k == 'CompoundAssignOperator':
+        return '(' + sk_ex(c[0]) + ' ' + n.get('opcode', '?') + ' ' + sk_ex(c[1]) + ')'
+    if k == 'UnaryOperator':
+        return ('(' + sk_ex(c[0]) + n.get('opcode', '?') + ')') if n.get('isPostfix') else ('(' + n.get('opcode', '?') + sk_ex(c[0]) + ')')
+    if k == 'ConditionalOperator':
+        return '(' + sk_ex(c[0]) + ' ? ' + sk_ex(c[1]) + ' : ' + sk_ex(c[2]) + ')'
+    if k == 'IntegerLiteral':
+        return str(n.get('value'))
+    if k == 'CXXBoolLiteralExpr':
+        return 'true' if n.get('value') else 'false'
+    if k == 'CXXConstructExpr':
+        if len(c) == 1:
+            return sk_ex(c[0])                      # copy / move / converting construction: transparent
+        return short_type(n) + '{' + ', '.join(sk_ex(a) for a in c) + '}'
+    if k in ('CXXFunctionalCastExpr', 'CXXTemporaryObjectExpr', 'InitListExpr', 'CXXStaticCastExpr'):
+        return short_type(n) + '{' + ', '.join(sk_ex(a) for a in c) + '}'
+    if k == 'ArraySubscriptExpr':
+        return sk_ex(c[0]) + '[' + sk_ex(c[1]) + ']'
+    if k == 'CXXDefaultArgExpr':
+        return '<default>'
+    if k == 'LambdaExpr':
+        body = [x for x in c if x.get('kind') == 'CompoundStmt']
+        return 'lambda{' + '; '.join(sk_st(body[-1])) + '}' if body else 'lambda'
+    if k == 'UnresolvedLookupExpr':
+        return n.get('name', '?')
+    return '<%s>' % k
+
+def sk_st(n):
+    """statement -> list of normalised lines"""
+    k = n.get('kind')
+    c = _kids(n)
+    if k == 'CompoundStmt':
+        return [l for s in c for l in sk_st(s)]
+    if k == 'NullStmt':
+        return []
+    if k == 'DeclStmt':
+        out = []
+        for d in c:
+            if d.get('kind') == 'VarDecl':
+                init = [x for x in _kids(d)]
+                out.append('let ' + d.get('name', '?') + (' = ' + sk_ex(init[-1]) if init else ''))
+            elif d.get('kind') in ('UsingDecl', 'UsingShadowDecl', 'TypedefDecl', 'TypeAliasDecl', 'StaticAssertDecl'):
+                pass
+            else:
+                out.append('<decl %s>' % d.get('kind'))
+        return out
+    if k == 'IfStmt':
+        inner = n.get('inner') or []
+        parts = [x for x in inner if x and x.get('kind')]
+        cond, then = parts[0], parts[1]
+        out = ['if ' + sk_ex(cond)] + sk_st(then)
+        if n.get('hasElse') and len(parts) > 2:
+            out += ['else'] + sk_st(parts[2])
+        return out + ['endif']
+    if k == 'ReturnStmt':
+        return ['return' + (' ' + sk_ex(c[0]) if c else '')]
+    if k == 'CXXForRangeStmt':
+        var = [x for x in c if x.get('kind') == 'DeclStmt'][-1]
+        vname = _kids(var)[0].get('name', '?')
+        rng = _kids(_kids(c[0])[0])[-1] if c[0].get('kind') == 'DeclStmt' else c[0]
+        return ['for ' + vname + ' in ' + sk_ex(rng)] + sk_st(c[-1]) + ['endfor']
+    if k in ('ForStmt', 'WhileStmt', 'DoStmt', 'SwitchStmt', 'CXXTryStmt'):
+        return [k] + [l for s in c for l in (sk_st(s) if s.get('kind', '').endswith('Stmt') else [sk_ex(s)])] + ['end' + k]
+    if k in ('BreakStmt', 'ContinueStmt', 'GotoStmt'):
+        return [k]
+    if k == 'CXXThrowExpr':
+        return ['throw ' + (short_type(c[0]) if c else '')]
+    txt = sk_ex(n)
+    return [] if txt == 'void{0}' else [txt]     # `assert(..)` under NDEBUG
+
+def _walk(n, path=()):
+    yield n, path
+    for c in n.get('inner', []) or []:
+        if c:
+            yield from _walk(c, path + (n,))
+
+def spec_args(n):
+    """template arguments of a ClassTemplateSpecializationDecl as text"""
+    a = []
+    for c in n.get('inner') or []:
+        if c and c.get('kind') == 'TemplateArgument':
+            t = c.get('type', {}).get('qualType') or str(c.get('value'))
+            a.append(t)
+    return a
+
+def sk_extract(objs, classes):
+    """classes: {label: (class name, template args or None)} -> {label: {'fields': [...], 'methods': {name: lines}}}"""
+    out = {}
+    for o in objs:
+        for n, p in _walk(o):
+            if n.get('kind') not in ('CXXRecordDecl', 'ClassTemplateSpecializationDecl') or not n.get('completeDefinition', n.get('inner')):
+                continue
+            for label, (cname, targs) in classes.items():
+                if n.get('name') != cname:
+                    continue
+                if targs is None:
+                    if n.get('kind') != 'CXXRecordDecl' or any(x.get('kind') == 'ClassTemplateDecl' for x in p):
+                        continue
+                else:
+                    if n.get('kind') != 'ClassTemplateSpecializationDecl' or spec_args(n) != targs:
+                        continue
+                rec = out.setdefault(label, {'fields': [], 'methods': {}})
+                for m in n.get('inner') or []:
+                    if not m:
+                        continue
+                    if m.get('kind') == 'FieldDecl' and m.get('name') not in rec['fields']:
+                        rec['fields'].append(m.get('name'))
+                    if m.get('kind') in ('CXXMethodDecl', 'FunctionTemplateDecl') and not m.get('isImplicit'):
+                        body = [x for x in _kids(m) if x.get('kind') == 'CompoundStmt']
+                        if body and m.get('name') not in rec['methods']:
+                            rec['methods'][m['name']] = sk_st(body[0])
+    return out
+
+
+
+def _lean_str(x):
+    return '"' + x.replace('\\', '\\\\').replace('"', '\\"') + '"'
+
+
+def regen_shape(ctx):
+    """-> None or an error text; writes lean/Osmium/Generated/C15Shape.lean"""
+    import hashlib
+    inc = os.path.join(vlib.REPO, 'include')
+    h = hashlib.sha256()
+    for rel in ('osmium/index/relations_map.hpp', 'osmium/index/id_set.hpp'):
+        try:
+            with open(os.path.join(inc, rel), 'rb') as f:
+                h.update(f.read())
+        except OSError as e:
+            return str(e)
+    with open(os.path.abspath(__file__), 'rb') as f:
+        h.update(f.read())
+    cache = os.path.join(vlib.BUILD, 'c15_shape-%s.json' % h.hexdigest()[:16])
+    if os.path.exists(cache):
+        with open(cache) as f:
+            r = json.load(f)
+    else:
+        work = os.path.join(vlib.BUILD, 'c15_shape')
+        os.makedirs(work, exist_ok=True)
+        tu = os.path.join(work, 'tu-%d.cpp' % os.getpid())
+        with open(tu, 'w') as f:
+            f.write(SHAPE_TU)
+        rc, so, se = vlib.sh(['clang++-14', '-std=gnu++17', '-fsyntax-only', '-I' + inc, '-D' + vlib.GUARD, '-DNDEBUG', '-Xclang',
+                              '-ast-dump=json', '-Xclang', '-ast-dump-filter=osmium::index', tu], timeout=300)
+        os.remove(tu)
+        if rc != 0:
+            return 'clang failed: ' + se[-600:]
+        r = sk_extract(_sk_load(so), SHAPE_CLASSES)
+        tmp = cache + '.tmp%d' % os.getpid()
+        with open(tmp, 'w') as f:
+            json.dump(r, f)
+        os.rename(tmp, cache)
+    lines = ['/- GENERATED by tools/props/c15.py from /repo/include on every run (clang typed AST of index/relations_map.hpp and',
+             '   index/id_set.hpp -> normalised statement sequences: one string per statement, `if c` … `else` … `endif`,',
+             '   `for x in r` … `endfor`; implicit casts / temporaries / comments / layout removed; `this->` dropped; NDEBUG) — do not edit.',
+             '   Core-only. -/', 'namespace Osmium.Generated.C15Shape', '']
+    for label in SHAPE_CLASSES:
+        rec = r.get(label) or {'fields': ['<missing>'], 'methods': {}}
+        lines += ['/-- the data members of `%s%s` -/' % (SHAPE_CLASSES[label][0], '<%s>' % ', '.join(SHAPE_CLASSES[label][1]) if SHAPE_CLASSES[label][1] else ''),
+                  'def %s_fields : List String := [%s]' % (label, ', '.join(_lean_str(x) for x in rec['fields'])), '']
+    for label, m in SHAPE_METHODS:
+        body = (r.get(label) or {'methods': {}})['methods'].get(m)
+        if body is None:
+            body = ['<missing>']
+        lines += ['def %s_%s : List String := [' % (label, m)] + [',\n'.join('  ' + _lean_str(x) for x in body) + ']', '']
+    lines += ['end Osmium.Generated.C15Shape', '']
+    vlib.write_if_changed(os.path.join(vlib.LEAN, 'Osmium', 'Generated', 'C15Shape.lean'), '\n'.join(lines))
+    ctx.count('shape-tie:methods', len(SHAPE_METHODS))
+    return None
+
+
 # ---------------------------------------------------------------------------------------------
 
 def split_mon(line):
@@ -429,7 +1033,7 @@ def classify_known(script, idx, tag):
                 touched = True
         if touched:
             return KEY_F2
-    if tag == 'lookup' and op[0] == 'R' and int(op[3]) > MAX32:
+    if tag == 'lookup' and op[:2] == ['R', 'look'] and int(op[3]) > MAX32:
         all32 = True
         for l in script.ops[:idx]:
             f = l.split()
@@ -449,7 +1053,10 @@ def run(ctx):
                 'IdSetDense: T in {uint32,uint64} x chunk_bits in {22,8,4}, ids around chunk/byte boundaries, around 2^32 (uint64), '
                 'just below and inside the top chunk (uint32); IdSetSmall; RelationsMapStash with all-32/mixed/all-64 pairs, the three '
                 'builders, probes incl. keys = recorded key + 2^32; ItemStash short histories with stale-handle probes and long '
-                'histories in which add_item collects automatically (>= 10000 removals), default and %d-byte initial buffer' % SMALL_IBS)
+                'histories in which add_item collects automatically (>= 10000 removals), default and %d-byte initial buffer.  Exhaustive streams: '
+                'one case = one whole history on fresh objects (relation maps: every add() sequence up to length 4/5 over a 3-4 id alphabet; '
+                'IdSetSmall: every set() sequence x merge partner; IdSetDense: every set/unset/cas/copy sequence up to length 3/4, counted as trivial)'
+                % SMALL_IBS)
     ctx.assumptions += [
         'uint64 id sets are only driven up to ids slightly above 2^32 (the real class allocates one pointer per chunk id); '
         'the model and the theorems cover all ids',
@@ -459,9 +1066,15 @@ def run(ctx):
     ]
     ctx.trusted += ['std::sort/std::unique/std::equal_range/std::set_union replaced by their specifications in the model '
                     '(List.mergeSort + adjacent dedup, dropWhile/takeWhile on a partitioned range)',
-                    'harness reads ItemStash::m_buffer/m_index through `#define private public` (observation only)']
+                    'harness reads ItemStash::m_buffer/m_index through `#define private public` (observation only)',
+                    'shape tie (Generated/C15Shape.lean, `src_shape_*`): the normalising printer of clang\'s AST in tools/props/c15.py; the reading '
+                    'of a statement sequence such as sort; unique; erase as the model function is by inspection (std algorithms by their specification)']
 
     # ---- 1. proofs ---------------------------------------------------------------------------
+    err = regen_shape(ctx)
+    if err:
+        ctx.violation('shape-extraction-failed', 'the statement sequences of the container methods could not be read off the source: ' + err[:800],
+                      {'kind': 'translator-failed', 'stderr': err}, found_input=False)
     proof_ok = ctx.proof_stage(exes=['model_c15'])
 
     # ---- 2. harness builds ---------------------------------------------------------------------
@@ -491,6 +1104,9 @@ def run(ctx):
         if bad:
             ctx.violation(rp.get('key', 'replay'), 'replay still fails: ' + rp.get('what', ''), {'kind': 'replay', 'ops': ops, 'binary': bkey})
         return
+
+    # ---- 2b. exhaustive small histories (own rng fork: the script streams below are unchanged) -------------
+    ex_lines = exhaustive_stage(ctx, bins, model_bin if ctx.exe_build_ok else None, quick)
 
     # ---- 3. scripts ----------------------------------------------------------------------------------
     scripts = []
@@ -607,8 +1223,9 @@ def run(ctx):
             else:
                 ctx.violation('harness-crash', 'harness exited %s: %s' % (rc, se[-400:]), {'kind': 'harness-crash', 'stderr': se[-3000:]},
                               found_input=False)
-    ctx.extra['ops_total'] = total_ops
-    ctx.evaluations = total_ops
+    ctx.extra['ops_total'] = total_ops + ex_lines
+    ctx.extra['ops_exhaustive_streams'] = ex_lines
+    ctx.evaluations = total_ops + ex_lines
     if crashed:
         return
 
